@@ -6,6 +6,9 @@ R8.3 arguments: rule of the production, the lexer, the span that is also pushed 
      values of the production, a clone of the parse parameter
 R8.5 on a shift the span stack receives the span of the very lexeme pushed on the value stack
 R8.6 inserted lexemes handed to actions are positioned at the next real lexeme of the current input index (= C05 R5.1)
+R8.7 the span handed to the action is Span::new(start(spans[pop_idx-1]), end(spans[last])) - first popped entry to last - or is
+     zero-length (both bounds the same term); in particular the case in which nothing was popped must not reuse another
+     symbol's extent
 R8.4 generic tree mode: child values mapped in order (value -> itself, lexeme -> fterm), then fnonterm(rule, nodes)
 """
 from mirlib import *
@@ -144,6 +147,37 @@ def r81_82_83(facts, res):
                 res.bad('R8.3', k3, loc_of(b, e[1]), '; '.join(probs))
             else:
                 res.ok('R8.3', k3, loc_of(b, e[1]), 'actions[p](prod_to_rule(p), lexer, pushed span, astack.drain(pop_idx-1..), param.clone())')
+            # R8.7 shape of the span: from the first popped entry to the last one, or zero-length
+            if len(args) == 5:
+                k7 = 'span-shape:%s#%d' % (name, len([i for i in res.instances if i['key'].startswith('R8.7:span-shape:%s' % name)]))
+                sp = strip_ref(args[2])
+                if not (is_call(sp, 'new') and len(sp[2]) == 2):
+                    res.bad('R8.7', k7, loc_of(b, e[1]), 'the span passed to the action is not built by Span::new(start, end) in the reduce arm: %s' % fmt_term(sp)[:120])
+                else:
+                    a, d = sp[2]
+                    def entry(t, acc):
+                        # acc(index(spans, IDX)) -> IDX, or None
+                        t = strip_ref(t)
+                        if is_call(t, acc) and t[2]:
+                            x = strip_ref(t[2][0])
+                            if is_call(x, 'index') and canon(b, x[2][0]) == ('role', 'SPANS'):
+                                return x[2][1]
+                        return None
+                    ia, id_ = entry(a, 'start'), entry(d, 'end')
+                    def is_pop_first(ix):
+                        # (len(pstack) - len(prod(p))) - 1
+                        return ix is not None and ix[0] == 'bin' and ix[1] == 'Sub' and ix[3] == ('const', 1) and ix[2][0] == 'bin' and ix[2][1] == 'Sub' \
+                            and is_call(ix[2][2], 'len') and canon(b, ix[2][2][2][0]) == ('role', 'PSTACK') and is_call(ix[2][3], 'len') and has_call(ix[2][3], 'prod')
+                    def is_last(ix):
+                        return ix is not None and ix[0] == 'bin' and ix[1] == 'Sub' and ix[3] == ('const', 1) and is_call(ix[2], 'len') \
+                            and canon(b, ix[2][2][0]) == ('role', 'SPANS')
+                    if a == d:
+                        res.ok('R8.7', k7, loc_of(b, e[1]), 'zero-length span %s' % fmt_term(sp)[:80])
+                    elif is_pop_first(ia) and is_last(id_):
+                        res.ok('R8.7', k7, loc_of(b, e[1]), 'from the start of the first popped entry to the end of the last one')
+                    else:
+                        res.bad('R8.7', k7, loc_of(b, e[1]), 'the span is neither (start of the first popped entry spans[pop_idx-1], end of the last entry) nor zero-length: %s - '
+                                'a production that derives no lexeme is handed a span that covers text it did not derive' % fmt_term(sp)[:160])
             # R8.1 material
             span_conds = tuple(sorted(((repr(canon(b, c)), str(v)) for c, v in p.conds
                                        if term_has(canon(b, c), lambda x: x == ('role', 'SPANS')) and not is_len_eq(c)
